@@ -45,6 +45,8 @@ ASSUMPTIONS = [
     "overlapping InjectLatency windows add up: the delay demanded is base + the extra_ms of exactly the windows open at the send instant (+-(3+2n) ns for n windows); overlapping ReduceCapacity windows: only 'capacity below configured' is demanded",
     "a RandomPartition may block pairs inside its node set only while one of its own fault cycles is open (open cycles = recorded fault events minus heal events before the send): while open, only 'blocked while a NetworkPartition / loss window covers the send' is demanded for such pairs; while closed, and for every other pair, the full two-sided oracle applies",
     "events created during the run for a crashed target are judged by the target's state at their due time, not at creation time",
+    "links with an ExponentialLatency base: only 'delay >= sum of the open extras' is demanded (the base sample comes from the global RNG); links with the harness ScriptedLatency base: exact, from the recorded sample",
+    "a concurrency-limited worker behind an explicit Queue -> QueueDriver pair may let requests wait: only arrivals after its last window are demanded to start by the horizon (horizon = last event + total service of the node + 60 ms)",
 ]
 MUST_OBSERVE = ["observations_checked"]
 
@@ -52,6 +54,8 @@ INF = 1 << 62
 TOL_NS = 3
 EPS = 1e-9
 NODE_FAULTS = ("CrashNode", "PauseNode")
+# precondition of the known stall of a concurrency-limited worker behind an explicit Queue -> QueueDriver pair
+STALL_SHAPE = "worker-busy-when-window-opened/completion-wakeup-dropped-inside-window"
 MS = 1_000_000
 
 
@@ -166,13 +170,18 @@ def evaluate(case: dict, faults: list, obs: dict, base: dict | None, stats: dict
         W = node_w[name]
         kind = n["kind"]
         log = obs["node_log"].get(name, [])
-        if kind in ("plain", "gen"):
+        if kind in ("plain", "gen", "qdw"):
+            # "qdw": a generator worker behind an explicit Queue -> QueueDriver pair; requests are addressed to the
+            # queue and reach the worker in zero simulated time, so the same due-time oracle applies to its log
             seen_h = set()
             seen_steps = set()
             step_at: dict = {}
+            h_time: dict = {}
+            bounded = kind == "qdw" and bool(n.get("conc"))
             for t, k, id_, x in log:
                 if k == "h":
                     seen_h.add((t, id_))
+                    h_time.setdefault(id_, t)
                 else:
                     seen_steps.add((id_, k, x))
                     if k == "s":
@@ -198,6 +207,9 @@ def evaluate(case: dict, faults: list, obs: dict, base: dict | None, stats: dict
                             f"{[(w['type'], w['s'], w['e']) for w in interf]}",
                         )
                     )
+            last_end = max([w["e"] for w in W], default=-1)
+            # jobs that were started and never completed: their wake-up fell inside a window and was dropped
+            killed = [k for k in h_time if (name, k) not in sink_done] if bounded else []
             for wk in work_by.get(name, []):
                 t = wk["t"]
                 if t in edges:
@@ -208,7 +220,25 @@ def evaluate(case: dict, faults: list, obs: dict, base: dict | None, stats: dict
                 if made_inside and not cover:
                     bump("future_dated_events_created_inside_window_due_outside")
                     stats["inflight_seen"] = 1
-                if not cover:
+                if bounded:
+                    # concurrency-limited worker behind the explicit queue: a request may legitimately wait, so only
+                    # "arrived after the last window => started by the horizon" is demanded for the arrival itself
+                    if not cover and last_end < INF and t > last_end and t < horizon - MS:
+                        bump("observations_checked")
+                        if wk["id"] not in h_time:
+                            stalled = any(h_time[k] < t for k in killed)
+                            out.append(
+                                V(
+                                    "not-resumed-after-restart",
+                                    "QueueDriver" if stalled else comp_of(W),
+                                    f"qdw/{STALL_SHAPE}" if stalled else f"qdw/bounded/{word}",
+                                    ("notresumed", name, t, wk["id"]),
+                                    f"request {wk['id']} arrived at the explicit queue of worker '{name}' (concurrency {n['conc']}) at t={t}ns, "
+                                    f"after its last window ended ({last_end}ns), and was never started by the horizon {horizon}ns; "
+                                    f"jobs whose wake-up was dropped inside a window before that: {[k for k in killed if h_time[k] < t][:6]}",
+                                )
+                            )
+                elif not cover:
                     bump("observations_checked")
                     if (t, wk["id"]) not in seen_h:
                         out.append(
@@ -221,12 +251,14 @@ def evaluate(case: dict, faults: list, obs: dict, base: dict | None, stats: dict
                                 f"{[(w['type'], w['s'], w['e']) for w in W]}, was not handled",
                             )
                         )
-                if kind == "gen" and wk.get("steps"):
+                if kind in ("gen", "qdw") and wk.get("steps"):
                     t_end = t + sum(st[0] for st in wk["steps"]) + 10
                     hit = [w for w in W if w["s"] <= t_end + 2 and w["e"] >= t - 2]
                     if any(t < w["s"] < t_end for w in W):
                         stats["inflight_seen"] = 1
-                    if not hit and t_end < horizon - MS:
+                    t_run = h_time.get(wk["id"]) if bounded else (t if (t, wk["id"]) in seen_h else None)
+                    stepwise = t_run is not None and t_run not in edges and not structure(W, t_run)[0] and (bounded or (bool(hit) and not cover))
+                    if not bounded and not hit and t_end < horizon - MS:
                         bump("observations_checked")
                         missing = [i for i in range(len(wk["steps"])) if (wk["id"], "s", i) not in seen_steps]
                         if missing or (name, wk["id"]) not in sink_done:
@@ -234,18 +266,18 @@ def evaluate(case: dict, faults: list, obs: dict, base: dict | None, stats: dict
                                 V(
                                     "process-not-completed-outside-windows",
                                     comp_of(W),
-                                    f"gen/{word}",
+                                    f"{kind}/{word}",
                                     ("incomplete", name, t, wk["id"]),
                                     f"process id {wk['id']} on '{name}' lives in [{t},{t_end}]ns, touches no window, "
                                     f"but steps {missing} / completion are missing",
                                 )
                             )
-                    elif hit and not cover and (t, wk["id"]) in seen_h:
-                        # The process meets a window.  Step by step: a step whose due instant lies outside every
+                    elif stepwise:
+                        # The process meets a window (or runs on a concurrency-limited worker, where it starts when polled).  Step by step: a step whose due instant lies outside every
                         # window (6 ns clear of every edge) and whose predecessors all ran must run - also when a whole
                         # window opened and closed while the process was asleep.  The first step due inside a window
                         # (or on an edge) is dropped and ends the demand.
-                        prev, ok_all = t, True
+                        prev, ok_all = t_run, True
                         for i, st in enumerate(wk["steps"]):
                             due = prev + st[0]
                             if due + 6 >= horizon - MS or any(abs(due - ed) <= 6 for ed in edges) or any(w["s"] <= due <= w["e"] for w in W):
@@ -262,7 +294,7 @@ def evaluate(case: dict, faults: list, obs: dict, base: dict | None, stats: dict
                                     V(
                                         "process-step-lost-after-window" if slept else "process-step-lost-outside-windows",
                                         comp_of(slept or W),
-                                        f"gen/{'slept-across-whole-window' if slept else 'no-window-during-sleep'}/{'future' if len(st) > 2 and st[2] == 'f' else 'delay'}",
+                                        f"{kind}/{'slept-across-whole-window' if slept else 'no-window-during-sleep'}/{'future' if len(st) > 2 and st[2] == 'f' else 'delay'}",
                                         ("steplost", name, wk["id"], i),
                                         f"process id {wk['id']} on '{name}': step {i} was due at ~{due}ns (previous stage ran at {prev}ns), outside "
                                         f"every window {[(w['type'], w['s'], w['e']) for w in W]}, and never ran; windows slept through: "
@@ -276,7 +308,7 @@ def evaluate(case: dict, faults: list, obs: dict, base: dict | None, stats: dict
                                 V(
                                     "process-step-lost-outside-windows",
                                     comp_of(W),
-                                    "gen/completion",
+                                    f"{kind}/completion",
                                     ("steplost", name, wk["id"], "done"),
                                     f"process id {wk['id']} on '{name}' ran all its steps outside the windows but its completion event never reached the sink",
                                 )
@@ -358,6 +390,26 @@ def evaluate(case: dict, faults: list, obs: dict, base: dict | None, stats: dict
                 if any(a < w["s"] for a in dl) and any(a > w["s"] for a in dl):
                     stats["inflight_seen"] = 1
 
+    for name, depth in obs["final"].get("queue_depth", {}).items():
+        W = node_w.get(name, [])
+        if all(w["e"] < horizon - MS for w in W):
+            bump("observations_checked")
+            if depth > 0:
+                nd = nodes[name]
+                lg = obs["node_log"].get(name, [])
+                started = {r[2] for r in lg if r[1] == "h"}
+                stalled = bool(nd.get("conc")) and any((name, k) not in sink_done for k in started)
+                out.append(
+                    V(
+                        "not-resumed-after-restart",
+                        "QueueDriver" if stalled else comp_of(W),
+                        f"qdw/{STALL_SHAPE}" if stalled else "qdw/queue-not-empty-at-end",
+                        ("qdepth", name),
+                        f"explicit Queue in front of worker '{name}' still holds {depth} request(s) at the end although every window "
+                        f"{[(w['type'], w['s'], w['e']) for w in W]} has ended (worker concurrency: {nd.get('conc') or 'unbounded'})",
+                    )
+                )
+
     # ---------------- bystanders: identical to the fault-free run (as multisets)
     if base is not None:
         for name, n in nodes.items():
@@ -387,10 +439,13 @@ def evaluate(case: dict, faults: list, obs: dict, base: dict | None, stats: dict
     net = case.get("net")
     if net:
         base_ns = {}
+        dist_of = {}
         for ln in net["links"]:
             base_ns[(ln["a"], ln["b"])] = ln["base_ns"]
+            dist_of[(ln["a"], ln["b"])] = ln.get("dist", "const")
             if ln.get("bidir"):
                 base_ns[(ln["b"], ln["a"])] = ln["base_ns"]
+                dist_of[(ln["b"], ln["a"])] = ln.get("dist", "const")
         parts = [w for w in eff if w["type"] == "NetworkPartition"]
         rsets = [set(w["f"]["nodes"]) for w in eff if w["type"] == "RandomPartition"]
         # recorded instants of the random partition's own fault / heal events: its open cycles are the only
@@ -444,6 +499,18 @@ def evaluate(case: dict, faults: list, obs: dict, base: dict | None, stats: dict
             if len(pc) + len(lc) + len(dc) >= 2 or li or di:
                 stats["overlap_seen"] = 1
             b0 = base_ns[(src, dst)]
+            dist = dist_of.get((src, dst), "const")
+            bmax = b0  # upper bound of the base delay (for "could the receiver be down at arrival")
+            dsfx = "" if dist == "const" else f"/{dist}-base-latency"
+            if dist == "scripted":
+                # the harness distribution recorded the sample it handed out for this send instant
+                recs = [d for now_, d in obs.get("scripted_latency", {}).get(f"{src}>{dst}", []) if now_ == ts]
+                bmax = int(1.5 * b0) + 2
+                b0 = recs[0] if len(recs) == 1 else None
+            elif dist == "exp":
+                bmax, b0 = 40 * b0, None
+            if dist != "const":
+                bump("probes_on_non_constant_links")
             bump("observations_checked")
             bump("probes_checked")
             if arrivals and len(rsets) == 1 and src in rsets[0] and dst in rsets[0] and ts not in rev_times and rp_open(ts) <= 0:
@@ -484,6 +551,22 @@ def evaluate(case: dict, faults: list, obs: dict, base: dict | None, stats: dict
                             f"{[(w['s'], w['e']) for w in lc]} cover it; ended inside: {[(w['s'], w['e']) for w in li]}",
                         )
                     )
+                elif dist == "exp":
+                    # base sample unknown (global RNG): inside windows the delay is at least the sum of the open extras
+                    want_min = sum(int(w["f"]["extra_ms"] * MS) for w in dc)
+                    if dc and delay < want_min - TOL_NS:
+                        out.append(
+                            V(
+                                "latency-not-in-effect",
+                                "InjectLatency",
+                                (dword if di else "no-window-ended-inside") + dsfx,
+                                ("lat", mid),
+                                f"message {mid} {src}>{dst} (exponential base latency) sent at t={ts}ns took {delay}ns < the {want_min}ns of the "
+                                f"open latency windows {[(w['f']['extra_ms'], w['s'], w['e']) for w in dc]}",
+                            )
+                        )
+                elif b0 is None:
+                    bump("probes_scripted_sample_ambiguous")
                 elif not dc:
                     if abs(delay - b0) > TOL_NS:
                         _, _, w0 = structure(D, ts)
@@ -491,7 +574,7 @@ def evaluate(case: dict, faults: list, obs: dict, base: dict | None, stats: dict
                             V(
                                 "latency-outside-windows",
                                 "InjectLatency",
-                                w0,
+                                w0 + dsfx,
                                 ("lat", mid),
                                 f"message {mid} {src}>{dst} sent at t={ts}ns outside every latency window took {delay}ns, base {b0}ns",
                             )
@@ -502,7 +585,7 @@ def evaluate(case: dict, faults: list, obs: dict, base: dict | None, stats: dict
                             V(
                                 "latency-not-in-effect",
                                 "InjectLatency",
-                                dword if di else "no-window-ended-inside",
+                                (dword if di else "no-window-ended-inside") + dsfx,
                                 ("lat", mid),
                                 f"message {mid} {src}>{dst} sent at t={ts}ns took the base {delay}ns although latency windows "
                                 f"{[(w['f']['extra_ms'], w['s'], w['e']) for w in dc]} cover it; ended inside: "
@@ -521,7 +604,7 @@ def evaluate(case: dict, faults: list, obs: dict, base: dict | None, stats: dict
                                 V(
                                     "latency-wrong-amount",
                                     "InjectLatency",
-                                    lshape,
+                                    lshape + dsfx,
                                     ("lat", mid),
                                     f"message {mid} {src}>{dst} sent at t={ts}ns took {delay}ns, expected {want}ns = base {b0}ns + the extras of "
                                     f"the open windows {[(w['f']['extra_ms'], w['s'], w['e']) for w in dc]}; windows that ended inside them: "
@@ -531,7 +614,7 @@ def evaluate(case: dict, faults: list, obs: dict, base: dict | None, stats: dict
             else:
                 if not pc and not lc:
                     max_extra = sum(int(w["f"]["extra_ms"] * MS) for w in dc)
-                    lo, hi = ts, ts + b0 + max_extra + 10
+                    lo, hi = ts, ts + bmax + max_extra + 10
                     rdown = [w for w in node_w.get(dst, []) if w["s"] <= hi and w["e"] >= lo]
                     if rdown or hi >= horizon - MS:
                         bump("probes_receiver_down")
@@ -695,7 +778,10 @@ def evaluate(case: dict, faults: list, obs: dict, base: dict | None, stats: dict
                 nD = len([w for w in eff if w["type"] == "InjectLatency" and (w["f"]["src"], w["f"]["dst"]) == (a, b)])
                 if st["loss"] != 0.0:
                     out.append(V("state-not-restored", "InjectPacketLoss", _nshape(nL), ("fin", key, "loss"), f"link {key} packet_loss_rate {st['loss']} after all windows ended"))
-                if abs(st["latency_ns"] - base_ns[(a, b)]) > TOL_NS:
+                if st.get("latency_ns") is None:
+                    if not st.get("latency_is_configured_object", True):
+                        out.append(V("state-not-restored", "InjectLatency", _nshape(nD) + "/non-constant-base-latency", ("fin", key, "lat"), f"link {key}: link.latency is not the configured distribution object after all windows ended"))
+                elif abs(st["latency_ns"] - base_ns[(a, b)]) > TOL_NS:
                     out.append(V("state-not-restored", "InjectLatency", _nshape(nD), ("fin", key, "lat"), f"link {key} latency {st['latency_ns']}ns != base {base_ns[(a, b)]}ns after all windows ended"))
             frs = [set(w["f"]["nodes"]) for w in eff if w["type"] == "RandomPartition"]
             rp_live = len(frs) > 1 or (len(frs) == 1 and rp_open(INF) > 0)  # a random cycle still open at the end
@@ -947,13 +1033,13 @@ def _node_workload(rng, node, win_ms, T_ms, ids, scale=1.0):
     name, kind = node["name"], node["kind"]
     out = []
     T = T_ms * MS
-    if kind in ("plain", "gen"):
-        out.extend(_dispatched(rng, name, win_ms, ids, steps=(kind == "gen")))
+    if kind in ("plain", "gen", "qdw"):
+        out.extend(_dispatched(rng, name, win_ms, ids, steps=(kind != "plain")))
     if kind == "plain":
         ts = [rng.randrange(5, T) for _ in range(int(rng.randrange(10, 35) * scale))] + _edge_times(rng, win_ms)
         for t in ts:
             out.append({"id": next(ids), "to": name, "t": t, "op": rng.choice(["work", "emit"])})
-    elif kind == "gen":
+    elif kind in ("gen", "qdw"):
         ts = [rng.randrange(5, T) for _ in range(int(rng.randrange(6, 20) * scale))] + _edge_times(rng, win_ms, p=0.4)
         for s, _e in win_ms:  # aimed: in flight at the window start
             for _ in range(rng.randrange(0, 3)):
@@ -1008,6 +1094,10 @@ def _mk_node(rng, name, kinds, bystander=False):
         n["bystander"] = True
     if kind in ("queued", "server"):
         n["conc"] = rng.choice([1, 1, 2, 3])
+    if kind == "qdw":
+        c = rng.choice([None, None, 1, 1, 2, 3])
+        if c:
+            n["conc"] = c
     if kind == "server":
         n["service_ns"] = rng.choice([500_000, 1 * MS, 2 * MS, 5 * MS]) + rng.randrange(0, 999)
     return n
@@ -1027,10 +1117,10 @@ def _horizon(case, T_ms):
     return max([last] + ends) + tail + hold + 60 * MS
 
 
-def _node_part(rng, case, ids, T_ms, n_faults, p_cancel, kinds=("plain", "gen", "queued", "server"), scale=1.0, extra_targets=()):
+def _node_part(rng, case, ids, T_ms, n_faults, p_cancel, kinds=("plain", "gen", "queued", "server", "qdw"), scale=1.0, extra_targets=()):
     k = rng.randrange(1, 4)
     targets = [_mk_node(rng, f"t{i}", kinds) for i in range(k)]
-    bystanders = [_mk_node(rng, f"b{i}", ("plain", "gen", "queued", "server"), bystander=True) for i in range(rng.randrange(1, 3))]
+    bystanders = [_mk_node(rng, f"b{i}", ("plain", "gen", "queued", "server", "qdw"), bystander=True) for i in range(rng.randrange(1, 3))]
     case["nodes"].extend(targets + bystanders)
     names = [t["name"] for t in targets] + list(extra_targets)
     hot = rng.choice(names)
@@ -1064,6 +1154,15 @@ def _net_part(rng, case, ids, T_ms, n_faults, p_cancel, scale=1.0):
             else:
                 links.append({"a": a, "b": b, "base_ns": rng.randrange(1, 9) * MS + rng.randrange(0, 999)})
                 links.append({"a": b, "b": a, "base_ns": rng.randrange(1, 9) * MS + rng.randrange(0, 999)})
+    # a third of the networks have links whose base latency is not a ConstantLatency: a harness
+    # LatencyDistribution subclass with recorded samples (exact additive oracle) or the library's ExponentialLatency
+    if rng.random() < 0.35:
+        for ln in links:
+            r = rng.random()
+            if r < 0.45:
+                ln["dist"], ln["dist_seed"] = "scripted", rng.randrange(1, 10**6)
+            elif r < 0.65:
+                ln["dist"] = "exp"
     case["net"] = {"nodes": names, "links": links}
     hot = rng.sample(names, 2)
     wins = _gen_windows(rng, n_faults, 5, T_ms - 40)
